@@ -204,6 +204,28 @@ add("C19", "set/get histories against a dict model across new Profile objects; l
     "builtins.input is scripted and the profile path redirected from the harness; plot content beyond the page count "
     "is not inspected; the third-party model sneddon_spher is excluded from batch fits.")
 
+add("C08", "metamorphic scale/shift relations, validity and accuracy oracles on Hypothesis-generated force arrays with "
+           "known contact index, all well-formed recorded curves, and generated degenerate arrays",
+    "All six estimators through compute_poc and Indentation.estimate_contact_point_index: integral index inside the "
+    "array, input untouched, same index with ret_details, exactly unchanged under x2^j, within one sample under "
+    "arbitrary positive factors (incl. 1e9) and constant shifts, within a stated fraction phi of the approach length "
+    "of the true contact on clean model curves (phi calibrated per estimator), and no exception but the documented "
+    "centre fallback for constant, decreasing, no-baseline and 0-12-sample arrays in N / nN / pN units.",
+    "phi values are calibrated constants (1.5x the worst clean-curve error measured on 45 000 curves), stated in the "
+    "evidence; an index at or beyond the force maximum is counted, not asserted.")
+
+add("C09", "generated histories reaching curve states and rating them with changing cache keys; differential against an "
+           "uncached standalone rater, the statement's case table, a fresh equal curve and child interpreters with "
+           "other hash seeds",
+    "States fresh / preprocessed / fitted / edited after fit / unsuccessful / refitted / failed call x regressor in 7 "
+    "names + 'none' x training set in {shipped, generated directory, in-memory tuple} x feature subsets x LDA flag, "
+    "interleaved with refits, edits and new preprocessing: rate_quality never raises, returns -1 / 0 per the case "
+    "table, stays in [0, 10] for the averaging tree regressors, equals get_rater(...).rate(datasets=curve) after "
+    "every change of hash, regressor, training set, names or LDA flag, is repeatable, equal on a fresh equal curve "
+    "and in child processes with PYTHONHASHSEED 1 / 98765, and does not change the curve.",
+    "Each rating trains a regressor (0.02-0.6 s), so quick explores 160 histories; equality with the standalone "
+    "rater is asserted for fitted states only (all not-fitted states share cache key 'none').")
+
 NOT_YET = {}
 
 ALL = [f"C{i:02d}" for i in range(1, 21)]
